@@ -12,7 +12,7 @@ from ..terms import mkint, mkatom, mklist, mkc, NIL, show
 ID = 'C40'
 LEVEL = 'exploration'
 RULE = ('12 goal families (deterministic recursion of chosen depth, naive reverse, member/between enumerations with 1-6 solutions, '
-        'failing goals, goals that throw, infinite loops, goals ending in cuts, if-then-else, findall inside, arithmetic loops) with '
+        'failing goals, goals that throw, infinite loops, goals ending in cuts, if-then-else, arithmetic loops; no inner findall/3: known finding K44) with '
         'random sizes; for each: binary search of the sharp threshold T (limit T-1 exceeds, limit T does not), 8-20 limits around and '
         'below T, each limit run twice on the same machine and T-1/T re-run on a fresh machine; nested forms '
         'call_with_inference_limit(call_with_inference_limit(G, Big, _), L, R), an inner limit that is exceeded followed by more '
@@ -30,12 +30,14 @@ c40_count(0) :- !.
 c40_count(N) :- N1 is N - 1, c40_count(N1).
 c40_rev([], []).
 c40_rev([H|T], R) :- c40_rev(T, RT), append(RT, [H], R).
-c40_nrev(N, R) :- numlist(1, N, L), c40_rev(L, R).
+c40_list(0, []) :- !.
+c40_list(N, [N|T]) :- N1 is N - 1, c40_list(N1, T).
+c40_nrev(N, R) :- c40_list(N, L), c40_rev(L, R).
 c40_loop :- c40_loop.
-c40_mem(N, X) :- numlist(1, N, L), member(X, L).
-c40_memwork(N, K, X) :- numlist(1, N, L), member(X, L), c40_count(K).
+c40_mem(N, X) :- c40_list(N, L0), c40_rev(L0, L), member(X, L).
+c40_memwork(N, K, X) :- c40_list(N, L0), c40_rev(L0, L), member(X, L), c40_count(K).
 c40_ite(N, R) :- ( N > 5 -> c40_count(N), R = big ; R = small ).
-c40_cutmem(N, X) :- numlist(1, N, L), member(X, L), X >= 2, !.
+c40_cutmem(N, X) :- c40_list(N, L0), c40_rev(L0, L), member(X, L), X >= 2, !.
 c40_fa(N, S) :- findall(X, between(1, N, X), L), sum_list(L, S).
 c40_out(X, G, L, Out) :- findall(X-R, call_with_inference_limit(G, L, R), Out).
 """
@@ -54,7 +56,6 @@ def goals(rng):
         ('fail', '( c40_count(%d), X = a, fail )' % n, []),
         ('ite', 'c40_ite(%d, X)' % n, [mkatom('big' if n > 5 else 'small')]),
         ('cut', 'c40_cutmem(%d, X)' % (k + 1), [mkint(2)]),
-        ('findall', 'c40_fa(%d, X)' % n, [mkint(n * (n + 1) // 2)]),
         ('arith', '( X is %d * 3 + 1 )' % n, [mkint(n * 3 + 1)]),
     ]
 
@@ -124,6 +125,15 @@ def shard(ctx):
                 hi = mid
         return hi
 
+    if ctx.shard == 0:
+        # fixed probe of known finding K44 (goals with an inner findall/3 are not generated at random because of it)
+        q = 'findall(X-R0, call_with_inference_limit(( findall(Y, between(1, 1000, Y), _), X = a ), 100, R0), R)'
+        o = arith.run_goal(w, q, var='R')
+        rec.case('below-threshold', ('k44-probe',))
+        p = parse(o)
+        if p is None or p[0] or not p[1]:
+            rec.violation({'kind': 'interrupted_inner_findall_leaks_into_outer_findall'}, {'goal': q, 'observed': arith.show_obs(o)[:300],
+                                                                                           'jobs': setup + [{'op': 'run', 'goal': q + ' .', 'limit': 2, 'pred': 'runr'}]})
     ref_goal = '( c40_count(17), X = done )'
     ref_t = threshold(ref_goal, 'reference')
     for rnd in range(ctx.params['n']):
